@@ -568,6 +568,12 @@ class CallRun(Case):
         return self.one(tuple(values["conf"]), tuple(values["passed"]), values["behaviour"])
 
 
+def json_copy(x):
+    import copy
+
+    return copy.deepcopy(x)
+
+
 class FrontEnds(Case):
     """bounded: all five front ends (NumpyStream, PandasStream, NetcdfStream, XarrayStream and
     QcConfig.run) on concrete small tables give the flags of the direct call on the window rows"""
@@ -581,7 +587,7 @@ class FrontEnds(Case):
     def all_props(self):
         return {"C05"}
 
-    def _direct(self, vals, times, z, window):
+    def _direct(self, vals, times, z, window, span=(0, 5)):
         import numpy as np
 
         from pyvc import replay
@@ -595,7 +601,7 @@ class FrontEnds(Case):
             sel &= t < np.datetime64(window[1], "s")
         out = {}
         x = np.array(vals, dtype=float)[sel]
-        out["gross_range_test"] = (sel, q.gross_range_test(x, fail_span=(0, 5)))
+        out["gross_range_test"] = (sel, q.gross_range_test(x, fail_span=tuple(span)))
         out["rate_of_change_test"] = (sel, q.rate_of_change_test(x, t[sel], threshold=1.0))
         # tests that take the depth and the position columns: those must be restricted to the same rows
         zz, la, lo = (np.array(c_, dtype=float)[sel] for c_ in z)
@@ -603,7 +609,7 @@ class FrontEnds(Case):
         out["location_test"] = (sel, q.location_test(lo, la, bbox=(-10, -10, 40, 14), range_max=400000))
         return out
 
-    def one(self, front, vals, times, window):
+    def one(self, front, vals, times, window, history=None):
         import warnings
 
         import numpy as np
@@ -631,14 +637,29 @@ class FrontEnds(Case):
         with warnings.catch_warnings():
             warnings.simplefilter("ignore")
             try:
-                if front == "numpy":
-                    res = stm.NumpyStream(df["v"].to_numpy(), df["time"].to_numpy(), df["z"].to_numpy(), df["lat"].to_numpy(), df["lon"].to_numpy()).run(cfgm.Config(conf))
-                elif front == "pandas":
-                    res = stm.PandasStream(df).run(cfgm.Config(conf))
-                elif front == "netcdf":
-                    res = stm.NetcdfStream(xr.Dataset.from_dataframe(df.set_index("time"))).run(cfgm.Config(conf))
-                elif front == "xarray":
-                    res = stm.XarrayStream(xr.Dataset.from_dataframe(df.set_index("time"))).run(cfgm.Config(conf))
+                cfg = cfgm.Config(conf)
+                span = (0, 5)
+
+                def make_stream():
+                    if front == "numpy":
+                        return stm.NumpyStream(df["v"].to_numpy(), df["time"].to_numpy(), df["z"].to_numpy(), df["lat"].to_numpy(), df["lon"].to_numpy())
+                    if front == "pandas":
+                        return stm.PandasStream(df)
+                    if front == "netcdf":
+                        return stm.NetcdfStream(xr.Dataset.from_dataframe(df.set_index("time")))
+                    return stm.XarrayStream(xr.Dataset.from_dataframe(df.set_index("time")))
+
+                if history == "edit-after-run" and front != "qcconfig":
+                    # history: the configuration object is run once, then its calls are edited in place (the
+                    # class documents the list as editable until run), then it is run again: the second run
+                    # must report the edited configuration
+                    list(make_stream().run(cfg))
+                    conf2 = json_copy(conf)
+                    conf2["streams"]["v"]["qartod"]["gross_range_test"] = {"fail_span": [0, 2]}
+                    cfg.calls[:] = cfgm.Config(conf2).calls
+                    span = (0, 2)
+                if front in ("numpy", "pandas", "netcdf", "xarray"):
+                    res = make_stream().run(cfg)
                 else:
                     if win:
                         return None  # QcConfig.run takes a bare test mapping (no window)
@@ -649,7 +670,7 @@ class FrontEnds(Case):
                     got = rsm.collect_results(list(res), how="dict").get("v", {})
             except Exception as e:  # noqa: BLE001
                 return "%s raised %r" % (front, e)
-        exp = self._direct(vals, times, z, window)
+        exp = self._direct(vals, times, z, window, span)
         for test, (sel, flags) in exp.items():
             g = got.get("qartod", {}).get(test)
             if g is None:
@@ -671,9 +692,13 @@ class FrontEnds(Case):
                 for w in windows:
                     region = front if front != "xarray" else "xarray:%s" % ("both" if w[0] is not None and w[1] is not None else ("none" if w == (None, None) else "one-bound"))
                     yield ("%s|n=%d|%s" % (front, len(vals), w), region, {"front": front, "vals": vals, "times": times, "window": list(w)}, (lambda f=front, v=vals, t=times, w=w: self.one(f, v, t, w)))
+        for front in ("numpy", "pandas", "netcdf"):
+            vals, times = tables[0]
+            for w in ((None, None), (10, 30)):
+                yield ("%s|edit-after-run|%s" % (front, w), front, {"front": front, "vals": vals, "times": times, "window": list(w), "history": "edit-after-run"}, (lambda f=front, v=vals, t=times, w=w: self.one(f, v, t, w, "edit-after-run")))
 
     def replay_bounded(self, label, values):
-        return self.one(values["front"], values["vals"], values["times"], tuple(values["window"]))
+        return self.one(values["front"], values["vals"], values["times"], tuple(values["window"]), values.get("history"))
 
 
 def cases():  # noqa: F811
